@@ -23,6 +23,7 @@ type Obligation struct {
 	Pos    token.Pos
 	Fn     *FnVC
 	Extra  []string // extra declarations local to this obligation (skolems)
+	Raw    string   // complete SMT text (lemma obligations)
 	// result
 	Verdict string
 	Solver  string
@@ -103,6 +104,8 @@ type FnVC struct {
 	retReach string
 	abstractFailed bool
 	specFiles map[string]bool
+	lemmasUsed map[string]bool
+	invSeen map[string]bool
 }
 
 func (c *FnVC) emit(s string)            { c.out = append(c.out, s) }
@@ -354,6 +357,7 @@ func (c *FnVC) assumeTypeInv(term string, t types.Type) {
 			c.assume("(wfstr " + term + ")")
 		}
 	case *types.Pointer, *types.Map, *types.Chan:
+		c.assume("(okptr " + term + ")")
 		if c.fnAlloc {
 			c.assume(fmt.Sprintf("(< (base %s) %s)", term, c.allocTerm()))
 		}
@@ -417,7 +421,9 @@ func (c *FnVC) load(t types.Type, loc string) string {
 		}
 		return fmt.Sprintf("(mk%s %s)", si.name, strings.Join(parts, " "))
 	case *types.Array:
-		return fmt.Sprintf("(lambda ((ai (_ BitVec 64))) %s)", c.load(u.Elem(), fmt.Sprintf("(aelem %s ai)", loc)))
+		n := c.freshConst("arrval", c.te.sortOf(t))
+		c.assume(fmt.Sprintf("(forall ((ai (_ BitVec 64))) (! (= (select %s ai) %s) :pattern ((select %s ai))))", n, c.load(u.Elem(), fmt.Sprintf("(aelem %s ai)", loc)), n))
+		return n
 	}
 	k := c.te.kindOf(t)
 	return fmt.Sprintf("(select %s %s)", c.H(k), loc)
@@ -822,6 +828,14 @@ func (c *FnVC) entrySetup() {
 			c.comment("requires " + r.Text)
 			c.assume(t)
 		}
+		for _, l := range c.ct.Lemmas {
+			t, err := ev.lemmaExpr(l.Expr)
+			if err != nil {
+				c.errorf("%s: lemma %q: %v", c.fnName(), l.Text, err)
+				continue
+			}
+			c.assume(t)
+		}
 	}
 	c.entry = copyHeap(c.cur)
 }
@@ -874,6 +888,14 @@ func (c *FnVC) finish() {
 	c.bindResults(env, c.fn.Signature, rv)
 	old := c.newEval(c.fn, c.paramEnv(), c.entry, nil)
 	ev := c.newEval(c.fn, env, c.cur, old)
+	for _, l := range c.ct.LemmasRet {
+		t, err := ev.lemmaExpr(l.Expr)
+		if err != nil {
+			c.errorf("%s: lemma_ret %q: %v", c.fnName(), l.Text, err)
+			continue
+		}
+		c.assume(t)
+	}
 	for i, e := range c.ct.Ensures {
 		conj := splitConj(e.Expr)
 		for j, cj := range conj {
